@@ -399,6 +399,46 @@ def shell_set_event(case):
     return [{"op": "ShellSet", "c": c, "name": name, "r": r}]
 
 
+def shell_nb_event(case):
+    """Read nbasis, re-assign angular momenta / kinds (whole attribute, or one entry in place), read nbasis again."""
+    from iodata.basis import Shell
+    ang, kinds, ang2, kinds2, inplace = case
+    n = len(ang)
+    sh = Shell(0, list(ang), list(kinds), np.linspace(1.0, 2.0, 2), np.ones((2, n)))
+
+    def nb():
+        try:
+            return [int(sh.nbasis)]
+        except TypeError:
+            return []
+    nb1 = nb()
+    if inplace:
+        for i in range(n):
+            sh.angmoms[i] = ang2[i]
+            sh.kinds[i] = kinds2[i]
+    else:
+        sh.angmoms = list(ang2)
+        sh.kinds = list(kinds2)
+    nb2 = nb()
+    return [{"op": "ShellNb", "ang": list(ang), "kinds": list(kinds), "ang2": list(ang2), "kinds2": list(kinds2), "inplace": inplace,
+             "nb1": nb1, "nb2": nb2, "nb3": nb()}]
+
+
+def shell_nb_cases(rng, thorough):
+    types = [(0, "c"), (1, "c"), (2, "c"), (2, "p"), (3, "p"), (4, "c"), (1, "p"), (0, "p")]
+    out = []
+    for n in (1, 2):
+        import itertools
+        combos = list(itertools.product(types, repeat=n))
+        pairs = [(a, b) for a in combos for b in combos if a != b]
+        if not thorough:
+            pairs = rng.sample(pairs, min(len(pairs), 300))
+        for a, b in pairs:
+            for inplace in (False, True):
+                out.append(([t[0] for t in a], [t[1] for t in a], [t[0] for t in b], [t[1] for t in b], inplace))
+    return out
+
+
 def shell_set_cases():
     out = []
     for nexp in (1, 2, 3):
@@ -438,6 +478,10 @@ def describe(tr, r):
         c = ev["c"]
         return (f"Shell assignment of {ev['name']} giving ang={c['nang']} kinds={c['nkind']} exp={c['nexp']} coeffs={c['rows']}x{c['cols']} result={ev['r']}",
                 f"assignment to an attribute of an existing Shell disagrees with Orbitals!ShapeOK: {ev}")
+    if ev["op"] == "ShellNb":
+        stale = ev["nb2"] == ev["nb1"] and ev["nb2"] != ev["nb3"]
+        return (f"Shell.nbasis after re-assigning angmoms/kinds ({'in place' if ev['inplace'] else 'attribute'}) is not the count of the new shell"
+                + (" (stale)" if ev["nb2"] == ev["nb1"] else ""), f"nbasis does not follow the angular momenta and kinds: {ev}")
     if ev["op"] == "Shell":
         c = ev["c"]
         key = f"Shell shapes ang={c['nang']} kinds={c['nkind']} exp={c['nexp']} coeffs={c['rows']}x{c['cols']} result={ev['r']} nbasis={'set' if ev['nbasis'] else 'error'}"
@@ -500,6 +544,7 @@ def check(run: Run):
     nmo = len(traces)
     traces += pmap(shell_event, shell_cases(rng, run.thorough()))
     traces += pmap(shell_set_event, shell_set_cases())
+    traces += pmap(shell_nb_event, shell_nb_cases(rng, run.thorough()))
     run.notes["tree_histories"] = ntree
     run.notes["shell_cases"] = len(traces) - nmo
 
@@ -507,7 +552,7 @@ def check(run: Run):
     import json
     for tr, r in zip(traces, reached):
         run.count()
-        if len(tr) > 1 or tr[0]["op"] in ("Shell", "ShellSet") or any(tr[0]["a"][n] for n in ARRMAP):
+        if len(tr) > 1 or tr[0]["op"] in ("Shell", "ShellSet", "ShellNb") or any(tr[0]["a"][n] for n in ARRMAP):
             run.distinct(hash(json.dumps([{k: e[k] for k in e if k != "obs"} for e in tr], sort_keys=True)))
         if r != len(tr):
             key, what = describe(tr, r)
@@ -581,7 +626,7 @@ def replay(rec):
         print("  ", {k: e[k] for k in e if k != "obs"})
     run = Run("C12", "quick", 0, LEVEL)
     # re-execute
-    if tr[0]["op"] in ("ShellSet", "ShapeRule"):
+    if tr[0]["op"] in ("ShellSet", "ShapeRule", "ShellNb"):
         print("re-run ./check C12 to re-execute shell assignments / shape rules")
         return 1
     if tr[0]["op"] == "Shell":
